@@ -305,6 +305,19 @@ pub fn run(tier: &str, out: &mut std::fs::File) -> i32 {
             items.push((s.clone(), buffer, if thorough { 1000 } else { 0 }));
         }
     }
+    if !thorough {
+        // heartbeats (progress events) enabled, small alphabet: a stalled consumer whose buffer
+        // is full when the heartbeat timer fires, then further changes
+        let hb_alpha = vec![WOp::RegisterExact, WOp::Apply(0), WOp::Apply(1), WOp::Dispatch, WOp::Heartbeat, WOp::Drain(0), WOp::Recv(0)];
+        for s in sequences(&hb_alpha, depth) {
+            if !s.contains(&WOp::Heartbeat) {
+                continue;
+            }
+            for buffer in [1usize, 2] {
+                items.push((s.clone(), buffer, 1000));
+            }
+        }
+    }
     items.sort_by_key(|(s, b2, _)| (s.len(), *b2));
     let total = items.len();
     let queue = Arc::new(Mutex::new(std::collections::VecDeque::from(items)));
@@ -371,7 +384,7 @@ pub fn run(tier: &str, out: &mut std::fs::File) -> i32 {
     cov.insert("alphabet".into(), json!(alpha));
     cov.insert("distinct_disagreement_classes".into(), json!(findings.classes()));
     cov.insert("known_findings_hit".into(), json!(findings.known_hit()));
-    cov.insert("explanation".into(), json!("Every action sequence up to the depth (containing at least one registration; at most two watchers: exact '/a' and prefix '/a/') over {apply one chunk (put /a; delete /a; failing CAS; a three-entry chunk put /a, put /a/b, put /a - larger than the broadcast capacity of 2; thorough adds put /a/b, successful CAS, put /b), let the dispatcher run to idle, drain a watcher, register exact, register prefix, drop a watcher (thorough: receive one, heartbeat)} x watcher buffer {1,2}, on the real WatchRegistry + WatchDispatcher task fed by the real DefaultStateMachineHandler::apply_chunk; each sequence is followed by 'dispatch everything, drain everybody'. Oracle per watcher: every data event is a committed change of a watched key with its content, revisions strictly increase, nothing follows CANCELED, and the delivered revisions are a gap-free prefix of the watched changes since registration - complete unless the stream ended with CANCELED or the watcher went away."));
+    cov.insert("explanation".into(), json!("Every action sequence up to the depth (containing at least one registration; at most two watchers: exact '/a' and prefix '/a/') over {apply one chunk (put /a; delete /a; failing CAS; a three-entry chunk put /a, put /a/b, put /a - larger than the broadcast capacity of 2; thorough adds put /a/b, successful CAS, put /b), let the dispatcher run to idle, drain a watcher, register exact, register prefix, drop a watcher (thorough: receive one, heartbeat)} x watcher buffer {1,2}; the quick tier adds every sequence up to the same depth over {register exact, put /a, delete /a, dispatch, heartbeat timer fires, drain, receive one} that contains a heartbeat, with progress events enabled, on the real WatchRegistry + WatchDispatcher task fed by the real DefaultStateMachineHandler::apply_chunk; each sequence is followed by 'dispatch everything, drain everybody'. Oracle per watcher: every data event is a committed change of a watched key with its content, revisions strictly increase, nothing follows CANCELED, and the delivered revisions are a gap-free prefix of the watched changes since registration - complete unless the stream ended with CANCELED or the watcher went away."));
     Evidence {
         property: "C24".into(),
         tier: tier.into(),
